@@ -178,6 +178,28 @@ func checkC15(c *km.Ctx) {
 				n++
 				ok := km.Unwrap(km.CallArgs(ci.Common())[1]) == ssa.Value(fn.Params[2])
 				r.Add("R-C15-1", km.FuncName(fn), "encode the profile parameter", posOf(c, ci), "gob.Encode(profile param)", km.ValStr(km.CallArgs(ci.Common())[1]), ok)
+				continue
+			}
+			// ... or in an encoding helper that is handed the profile
+			g := km.StaticCallee(ci.Common())
+			if g == nil || g.Blocks == nil || !c.InModule(g) {
+				continue
+			}
+			for _, c2 := range km.CallsIn(g) {
+				if km.CalleeFull(c2.Common()) != "(*encoding/gob.Encoder).Encode" {
+					continue
+				}
+				n++
+				ok := false
+				if p, isP := km.Unwrap(km.CallArgs(c2.Common())[1]).(*ssa.Parameter); isP {
+					args := km.CallArgs(ci.Common())
+					for i, q := range g.Params {
+						if q == p && i < len(args) {
+							ok = km.Unwrap(args[i]) == ssa.Value(fn.Params[2])
+						}
+					}
+				}
+				r.Add("R-C15-1", km.FuncName(fn), "encode the profile parameter", posOf(c, ci), "gob.Encode(profile param)", "through "+km.NameOf(g), ok)
 			}
 		}
 		if n == 0 {
@@ -186,12 +208,20 @@ func checkC15(c *km.Ctx) {
 	}
 	if fn := c.MustFunc("R-C15-1", "cmd/keymasterd", "(*RuntimeState).LoadUserProfile"); fn != nil {
 		n := 0
+		scan := []*ssa.Function{fn}
 		for _, ci := range km.CallsIn(fn) {
-			if km.CalleeFull(ci.Common()) == "(*encoding/gob.Decoder).Decode" {
-				n++
-				dst := km.Unwrap(km.CallArgs(ci.Common())[1])
-				ok := km.NamedTypeOf(dst.Type()) == KMD+".userProfile"
-				r.Add("R-C15-1", km.FuncName(fn), "decode into the same type", posOf(c, ci), "gob.Decode(&userProfile)", types.TypeString(dst.Type(), nil), ok)
+			if g := km.StaticCallee(ci.Common()); g != nil && g.Blocks != nil && c.InModule(g) && g.Pkg == fn.Pkg {
+				scan = append(scan, g)
+			}
+		}
+		for _, sf := range scan {
+			for _, ci := range km.CallsIn(sf) {
+				if km.CalleeFull(ci.Common()) == "(*encoding/gob.Decoder).Decode" {
+					n++
+					dst := km.Unwrap(km.CallArgs(ci.Common())[1])
+					ok := km.NamedTypeOf(dst.Type()) == KMD+".userProfile"
+					r.Add("R-C15-1", km.FuncName(fn), "decode into the same type", posOf(c, ci), "gob.Decode(&userProfile)", types.TypeString(dst.Type(), nil), ok)
+				}
 			}
 		}
 		if n == 0 {
